@@ -221,6 +221,9 @@ def c13_b(ctx):
     rr = returns(nw)
     ok = len(rr) == 1 and match_any(exw.term(rr[0].value),
                                     ('np.atleast_1d(weights) / np.sum(weights)',
+                                     'np.atleast_1d(weights) / np.sum(np.atleast_1d(weights))',
+                                     'np.asarray(weights) / np.sum(np.asarray(weights))',
+                                     'np.asarray(weights) / np.sum(weights)',
                                      'weights / np.sum(weights)')) is not None
     ctx.check(ok, nw, 'normalisation', 'w / sum(w)', 'normalize_weights does not divide by the sum',
               fn=nw, node=rr[0] if rr else nw.node)
